@@ -1,7 +1,7 @@
 /- line-protocol handler for the Ops model (C08).
    operand : (ts (L (T T:<t> <cell>)*)) | (num <cell>) | (L operand*)        cell = I:<4x> | F:nan
    ops     : (ops bin <add|sub|mul|div> <a> <b> <ij|oj|lj|rj> <N|ffill|bfill>)      a, b: operand or list of operands
-             (ops agg <sum|mean|count> (L operand*) <how> <method>)
+             (ops agg <sum|mean|count> (L operand*) <how> <method>)                 Series and scalars; no Series at all -> (num ..)
    replies : (ts (L (T T:<t> Q:<num>/<den> | F:nan)*)) | (num Q:<num>/<den> | F:nan) | N
    frames  : foperand = operand | (df (T (L T:<t>*) (D (<hexname> (L <cell>*))*)))     (distinct names, >= 1 column, rectangular)
              (ops binf <add|sub|mul|div> <a> <b> <how> <method> <ij|oj>)                a, b: foperand or list of foperands
@@ -125,7 +125,7 @@ def handle1 (op : String) (args : List Sexp) : Option String := do
       let g ← aggOf g; let xs ← operandsOf xs; let how ← howOf how; let m ← dirOf m
       match aggregate g how m xs with
       | some s => pure ("ok " ++ operandStr (.ts s))
-      | Option.none => pure "ok (num F:nan)"
+      | Option.none => pure ("ok " ++ operandStr (.num (aggregateNum g xs)))      -- no Series at all: a scalar
   | "cmp", [c, a, b, how, m] =>
       let c ← cmpOf c; let a ← operandOf a; let b ← operandOf b; let how ← howOf how; let m ← dirOf m
       pure ("ok " ++ boperandStr (cmpop c how m a b))
